@@ -1107,6 +1107,10 @@ where
         let new_len = len.checked_add(additional).expect("too many variables");
         let range = len..new_len;
 
+        // Memoised results may depend on the set of variables (e.g., the
+        // Boolean-function view of ZBDDs), so the apply cache is invalidated
+        // like for a reordering.
+        self.data.pre_gc(self);
         self.data.pre_reorder(self);
         MD::pre_reorder_mut(self);
 
@@ -1121,6 +1125,8 @@ where
 
         self.data.post_reorder(self);
         MD::post_reorder_mut(self);
+        // SAFETY: We called `pre_gc`, the variables are added.
+        unsafe { self.data.post_gc(self) };
 
         range
     }
@@ -1130,6 +1136,10 @@ where
         &mut self,
         names: impl IntoIterator<Item = S>,
     ) -> Result<Range<VarNo>, DuplicateVarName> {
+        // Memoised results may depend on the set of variables (e.g., the
+        // Boolean-function view of ZBDDs), so the apply cache is invalidated
+        // like for a reordering.
+        self.data.pre_gc(self);
         self.data.pre_reorder(self);
         MD::pre_reorder_mut(self);
 
@@ -1150,6 +1160,8 @@ where
 
             this.data.post_reorder(this);
             MD::post_reorder_mut(this);
+            // SAFETY: We called `pre_gc`, the variables are added.
+            unsafe { this.data.post_gc(this) };
         });
 
         let mut names = names.into_iter();
@@ -1173,6 +1185,10 @@ where
             return self.add_named_vars(map.into_names_iter());
         }
 
+        // Memoised results may depend on the set of variables (e.g., the
+        // Boolean-function view of ZBDDs), so the apply cache is invalidated
+        // like for a reordering.
+        self.data.pre_gc(self);
         self.data.pre_reorder(self);
         MD::pre_reorder_mut(self);
 
@@ -1188,6 +1204,8 @@ where
 
         self.data.post_reorder(self);
         MD::post_reorder_mut(self);
+        // SAFETY: We called `pre_gc`, the variables are added.
+        unsafe { self.data.post_gc(self) };
 
         Ok(0..n)
     }
